@@ -13,7 +13,7 @@ OneConfig == {[stale |-> "reject", unsafe |-> "reject", maxdepth |-> 32]}
 TwoShapes == {"siblings", "overlap"}
 AllShapes == {"chain", "siblings", "overlap", "twotals", "deep", "loop", "halves"}
 (* every pair of rejected publication points in the shape "halves", each unsafe-vrps policy *)
-UnsafeShapes  == {"halves"}
+UnsafeShapes  == {"halves", "families"}
 UnsafeConfigs == {[stale |-> "reject", unsafe |-> u, maxdepth |-> 32] : u \in {"reject", "warn", "accept"}}
 PointFaultsOnly(site, k) == site[1] = "mft" /\ k \in {"Missing", "Expired", "HashMismatch", "Stale"}
 =============================================================================
